@@ -27,7 +27,8 @@ import (
 
 // one step of a history
 type VerifC20Op struct {
-	Op  string `json:"op"` // w = write one entity | b = backup run | r = restart hub
+	Op  string `json:"op"` // w = write one entity | b = backup run | r = restart hub | i = environment replaces the location's id file by ID | x = environment removes it
+	ID  string `json:"id"`
 	Ds  int    `json:"ds"`
 	K   int    `json:"k"`
 	V   int    `json:"v"`
@@ -36,7 +37,9 @@ type VerifC20Op struct {
 
 type VerifC20Case struct {
 	Ops     []VerifC20Op `json:"ops"`
-	Foreign bool         `json:"foreign"` // the backup location already holds another store's DATAHUB_BACKUPID + files
+	Sid     *string      `json:"sid"`     // operator-assigned content of the store's DATAHUB_BACKUPID; null = let Store.Open generate it
+	Foreign bool         `json:"foreign"` // the backup location is pre-filled: id file (LocID0), somebody's backup file and cursor file
+	LocID0  string       `json:"locid0"`
 	Rsync   bool         `json:"rsync"`   // BackupRsync mode (restore = open the rsync'ed directory)
 }
 
@@ -55,7 +58,9 @@ type VerifC20Obs struct {
 	RichEq   bool     `json:"richeq"` // every read (datasets, entities, changes, relations both ways) equal between snapshot and restored hub
 	RichDiff string   `json:"richdiff,omitempty"`
 	RawEq    bool     `json:"raweq"` // Badger level: same (key, version, meta, value) for every live key, restored DB vs source at that moment
-	Foreign  string   `json:"foreignstate"` // "", "untouched", "modified"
+	Sid      string    `json:"sid"`     // content of the store's DATAHUB_BACKUPID
+	LocID    []*string `json:"locid"`   // content of the location's DATAHUB_BACKUPID after each op (index 0 = before the first), null = absent
+	Touched  []bool    `json:"touched"` // per op: some file below the location changed (content digest) during the op
 }
 
 const verifC20NS = "http://v/"
@@ -336,13 +341,16 @@ func VerifC20Run(c VerifC20Case, dir string) (obs VerifC20Obs) {
 			h.store.Close()
 		}
 	}()
-	foreignBefore := ""
+	obs.LocID, obs.Touched = []*string{}, []bool{}
 	if c.Foreign {
 		_ = os.MkdirAll(bdir, 0o755)
-		_ = os.WriteFile(filepath.Join(bdir, StorageIDFileName), []byte("4711"), 0o644)
+		_ = os.WriteFile(filepath.Join(bdir, StorageIDFileName), []byte(c.LocID0), 0o644)
 		_ = os.WriteFile(filepath.Join(bdir, "datahub-backup.kv"), []byte("somebody else's backup"), 0o644)
 		_ = os.WriteFile(filepath.Join(bdir, "datahub-backup.lastseen"), []byte{9, 0, 0, 0, 0, 0, 0, 0}, 0o644)
-		foreignBefore = verifC20DirState(bdir)
+	}
+	if c.Sid != nil {
+		// Store.Open only generates the id file when it is missing and nothing else interprets its content
+		_ = os.WriteFile(filepath.Join(src, StorageIDFileName), []byte(*c.Sid), 0o644)
 	}
 	var err error
 	h, err = verifC20Open(src, bdir, c.Rsync)
@@ -351,8 +359,21 @@ func VerifC20Run(c VerifC20Case, dir string) (obs VerifC20Obs) {
 		obs.Detail = err.Error()
 		return
 	}
+	if b, err := os.ReadFile(filepath.Join(src, StorageIDFileName)); err == nil {
+		obs.Sid = string(b)
+	}
 	kv := filepath.Join(bdir, "datahub-backup.kv")
+	dirBefore := verifC20DirState(bdir)
 	record := func(bres int, before int64) {
+		if b, err := os.ReadFile(filepath.Join(bdir, StorageIDFileName)); err == nil {
+			x := string(b)
+			obs.LocID = append(obs.LocID, &x)
+		} else {
+			obs.LocID = append(obs.LocID, nil)
+		}
+		now := verifC20DirState(bdir)
+		obs.Touched = append(obs.Touched, now != dirBefore)
+		dirBefore = now
 		obs.MaxV = append(obs.MaxV, h.store.database.MaxVersion())
 		obs.Cursor = append(obs.Cursor, h.bm.lastID)
 		obs.Disk = append(obs.Disk, verifC20DiskCursor(bdir))
@@ -384,6 +405,13 @@ func VerifC20Run(c VerifC20Case, dir string) (obs VerifC20Obs) {
 				return
 			}
 			record(0, before)
+		case "i":
+			_ = os.MkdirAll(bdir, 0o755)
+			_ = os.WriteFile(filepath.Join(bdir, StorageIDFileName), []byte(op.ID), 0o644)
+			record(0, before)
+		case "x":
+			_ = os.Remove(filepath.Join(bdir, StorageIDFileName))
+			record(0, before)
 		case "b":
 			rows, rich := verifC20Reads(h)
 			raw := verifC20Raw(h.store.database)
@@ -397,12 +425,7 @@ func VerifC20Run(c VerifC20Case, dir string) (obs VerifC20Obs) {
 	}
 	obs.Snap = snapRows
 	if c.Foreign {
-		if verifC20DirState(bdir) == foreignBefore {
-			obs.Foreign = "untouched"
-		} else {
-			obs.Foreign = "modified"
-		}
-		return
+		return // a pre-filled location holds somebody else's (opaque) backup file: nothing of ours to restore
 	}
 	// ---- restore
 	h.store.Close()
